@@ -408,6 +408,43 @@ static size_t wexp_ref_size(const int *seq, int n)
     return ref.len;
 }
 
+/* The sequence on a writer that was told a capacity far beyond what the sequence needs (SIZE_MAX as "unbounded", values with bit 63 or
+ * only bit 32 set) while the destination block has exactly the encoded size: every call succeeds, the bytes are the encoding. */
+static bool wexp_run_huge(const int *seq, int n, size_t claim, wexp_mm *mm)
+{
+    static vf_doc ref;
+    wpiece pc[4];
+    ref.len = 0;
+    for (int i = 0; i < n; i++) wexp_ref_op(seq[i], &ref, pc);
+    size_t size = ref.len;
+    uint8_t *dst = (uint8_t *) vf_xmalloc(size ? size : 1);
+    uint8_t *dptr = size ? dst : dst + 1;
+    memset(dst, 0xA5, size ? size : 1);
+    binson_writer w;
+    memset(&w, 0x77, sizeof w);
+    bool ok = binson_writer_init(&w, dptr, claim);
+    if (!ok) { snprintf(mm->why, sizeof mm->why, "writer_init with capacity %zx returned false", claim); snprintf(mm->sig, sizeof mm->sig, "huge-capacity:init"); }
+    ref.len = 0;
+    memcpy(wexp_seq, seq, sizeof(int) * (size_t) n); wexp_nseq = n; wexp_cap_cur = -1;
+    for (int i = 0; ok && i < n; i++) {
+        wexp_opi_cur = i;
+        wexp_ref_op(seq[i], &ref, pc);
+        wexp_alias_ok = false;
+        vf_progress++;
+        bool r = wexp_real_op(seq[i], &w);
+        bool want = seq[i] != WO_P2W_REFUSED;
+        if (r != want || w.error_flags != BINSON_ERROR_NONE || binson_writer_get_counter(&w) != ref.len) {
+            snprintf(mm->why, sizeof mm->why, "capacity %zx (destination of exactly the encoded size %zu): call %d (%s) returned %d, error %d, counter %zu (expected %zu)", claim, size, i,
+                     wo_name[seq[i]], r, (int) w.error_flags, binson_writer_get_counter(&w), ref.len);
+            snprintf(mm->sig, sizeof mm->sig, "huge-capacity");
+            ok = false;
+        }
+    }
+    if (ok && size && memcmp(dptr, ref.bytes, size)) { snprintf(mm->why, sizeof mm->why, "capacity %zx: the stored bytes are not the encoding", claim); snprintf(mm->sig, sizeof mm->sig, "huge-capacity:bytes"); ok = false; }
+    free(dst);
+    return ok;
+}
+
 /* one sequence at every capacity up to size+1 (see below for encodings longer than 2000 bytes); returns the encoded size */
 static size_t wexp_one_seq(const wexp_cfg *cf, const int *seq, int m, const char *sigprefix)
 {
@@ -439,6 +476,21 @@ static size_t wexp_one_seq(const wexp_cfg *cf, const int *seq, int m, const char
             wexp_run(cf, seq, m, cap, &m2, false);  /* leaves wexp_* context set */
             wexp_report(sigprefix, &mm);
             break;
+        }
+    }
+    /* capacities beyond any real buffer (only for sequences whose every call has an encoding) */
+    bool enc = true;
+    for (int i = 0; i < m; i++) if (seq[i] >= WO_FIRST_NOENC) enc = false;
+    if (enc && (cf->c04 || cf->c09) && sizeof(size_t) == 8) {
+        static const size_t claims[] = { SIZE_MAX, ((size_t) 1 << 63) | 4096, (size_t) 1 << 32 };
+        for (int c = 0; c < 3; c++) {
+            vf_count(CT_W_RUNS, 1);
+            if (!wexp_run_huge(seq, m, claims[c], &mm)) {
+                wexp_mm m2;
+                if (wexp_run_huge(seq, m, claims[c], &m2) || strcmp(m2.why, mm.why)) vf_die("writer violation did not reproduce: %s", mm.why);
+                wexp_report(sigprefix, &mm);
+                break;
+            }
         }
     }
     return size;
